@@ -124,6 +124,28 @@ def main():
         return 2
     sys.path.insert(0, tmp)
     os.environ["VERIF_PKG_DIR"] = tmp
+    cov_dir = os.environ.get("VERIF_COV")
+    if cov_dir:     # tools/coverage_run.sh: which source lines the streams reach
+        import coverage
+        cov = coverage.Coverage(data_file=None, include=[pkg + "/*.py"],
+                                branch=True)
+        cov.start()
+
+        def _dump_cov():
+            cov.stop()
+            out = {}
+            for f in cov.get_data().measured_files():
+                try:
+                    _, stmts, _, missing, _ = cov.analysis2(f)
+                except Exception:   # noqa
+                    continue
+                out[os.path.basename(f)] = {"statements": stmts,
+                                            "missing": missing}
+            os.makedirs(cov_dir, exist_ok=True)
+            with open(os.path.join(cov_dir, "%s-%d.json" % (
+                    prop, os.getpid())), "w") as fh:
+                json.dump(out, fh)
+        atexit.register(_dump_cov)
     try:
         import gtirb
     except Exception:
